@@ -122,7 +122,12 @@ func execC06(t *testing.T, sc *kernel.Scenario, trace bool) *kernel.Result {
 				if !r.SigsOK {
 					s.Fail("C06.enabled-not-fully-signed", "%s enabled %s v%d without a complete set of valid signatures", p.n[side].Name, s.ChanName(r.Ch), r.Version)
 				}
-				if mode != 2 {
+				p.mu.Lock()
+				peerRestarting := p.restarting[1-side]
+				p.mu.Unlock()
+				if mode != 2 && !peerRestarting {
+					// (while the peer is being restarted its new instance already
+					// answers, but the driver still looks at the old one's records)
 					other := p.n[1-side].Rec.EnabledOf(r.Ch)
 					if len(other) > 0 {
 						ov := other[len(other)-1].Version
@@ -387,6 +392,14 @@ func (p *pair) crashRestart(step int, st *kernel.Step, hookEnable func(side int)
 		_ = o
 	}
 	p.mu.Unlock()
+	p.mu.Lock()
+	p.restarting[side] = true
+	p.mu.Unlock()
+	defer func() {
+		p.mu.Lock()
+		p.restarting[side] = false
+		p.mu.Unlock()
+	}()
 	snap := old.Crash()
 	s.Count("fault.crash_restart", 1)
 	time.Sleep(time.Duration(st.Int("down_us"))*time.Microsecond + s.Delay(fmt.Sprintf("crash:down:%d", step), 0, time.Microsecond))
